@@ -1,6 +1,8 @@
 package main
 
 import (
+	"encoding/json"
+	"html"
 	"fmt"
 	"go/types"
 	"strconv"
@@ -41,6 +43,7 @@ func init() {
 		"github.com/mattn/go-runewidth.StringWidth": iStringWidth,
 		"unicode/utf8.RuneCountInString":    iRuneCount,
 		"html.EscapeString":                 iHTMLEscape,
+		"html.UnescapeString":               iHTMLUnescape,
 		"encoding/json.Marshal":             iJSONMarshal,
 		"sort.Strings":                      iSortStrings,
 		"(*sync.Mutex).Lock":                iMutexLock,
@@ -614,10 +617,50 @@ func (in *Interp) sprintf(format string, args []Value) ([]*Term, bool) {
 		if i >= len(format) {
 			return nil, false
 		}
-		sharp := false
-		if format[i] == '#' {
-			sharp = true
+		sharp, minus := false, false
+		for i < len(format) && (format[i] == '#' || format[i] == '-') {
+			if format[i] == '#' {
+				sharp = true
+			} else {
+				minus = true
+			}
 			i++
+		}
+		// width: decimal digits or '*' (an int operand; a negative one means left-justify)
+		width, haveWidth := 0, false
+		if i < len(format) && format[i] == '*' {
+			if ai >= len(args) {
+				return nil, false
+			}
+			wv, isIface := args[ai].(IfaceV)
+			if !isIface || wv.t == nil {
+				return nil, false
+			}
+			wt, isTerm := wv.v.(*Term)
+			if bt, isBasic := wv.t.Underlying().(*types.Basic); !isTerm || !isBasic || bt.Kind() != types.Int {
+				return nil, false
+			}
+			ai++
+			w := in.concretize(wt, "fmt width")
+			if w < 0 {
+				minus, w = true, -w
+			}
+			if w > 1<<20 {
+				return nil, false
+			}
+			width, haveWidth = int(w), true
+			i++
+		} else {
+			for i < len(format) && format[i] >= '0' && format[i] <= '9' {
+				if !haveWidth && format[i] == '0' {
+					return nil, false // zero padding is outside the model
+				}
+				width, haveWidth = width*10+int(format[i]-'0'), true
+				i++
+			}
+		}
+		if i >= len(format) {
+			return nil, false
 		}
 		verb := format[i]
 		if verb == '%' {
@@ -631,6 +674,20 @@ func (in *Interp) sprintf(format string, args []Value) ([]*Term, bool) {
 		ai++
 		if !ok {
 			return nil, false
+		}
+		if haveWidth && width > 0 {
+			// fmt pads to the width counted in runes
+			cnt := iRuneCount(in, nil, []Value{StrV{b: b}}).(*Term)
+			n := int(in.concretize(cnt, "fmt operand rune count"))
+			var padding []*Term
+			for k := n; k < width; k++ {
+				padding = append(padding, in.tt.b8[' '])
+			}
+			if minus {
+				b = append(append([]*Term{}, b...), padding...)
+			} else {
+				b = append(padding, b...)
+			}
 		}
 		out = append(out, b...)
 	}
@@ -809,8 +866,11 @@ func realStringWidth(s string) int {
 // symbolic byte whose domain is ASCII contributes ite(printable,1,0); otherwise the whole string is
 // an uninterpreted function of its bytes (evaluated with the real function on models).
 func iStringWidth(in *Interp, fn *ssa.Function, a []Value) Value {
-	in.logRunewidthGlobal("rd")
 	s := a[0].(StrV)
+	if len(s.b) > 0 {
+		// the condition object is read by RuneWidth, i.e. once the string has a first rune
+		in.logRunewidthGlobal("rd")
+	}
 	if cs, ok := concreteString(s); ok {
 		return in.intTerm(realStringWidth(cs))
 	}
@@ -922,6 +982,32 @@ func iHTMLEscape(in *Interp, fn *ssa.Function, a []Value) Value {
 	return StrV{b: out}
 }
 
+// iHTMLUnescape models html.UnescapeString: concrete strings go through the real function; with
+// symbolic bytes the string is unchanged unless some '&' is followed by at least two more bytes the
+// first of which is '#' or a letter (an entity candidate), which is outside the model.
+func iHTMLUnescape(in *Interp, fn *ssa.Function, a []Value) Value {
+	s := a[0].(StrV)
+	if cs, ok := concreteString(s); ok {
+		return in.mkStr(html.UnescapeString(cs))
+	}
+	for i, b := range s.b {
+		if len(s.b)-i-1 < 2 {
+			break
+		}
+		if !in.branch(in.tt.Bin(OpEq, b, in.tt.b8['&'])) {
+			continue
+		}
+		n := s.b[i+1]
+		lower := in.tt.Bin(OpOr, n, in.tt.Const(8, 0x20))
+		cand := in.tt.Or(in.tt.Bin(OpEq, n, in.tt.b8['#']),
+			in.tt.And(in.tt.Bin(OpUle, in.tt.b8['a'], lower), in.tt.Bin(OpUle, lower, in.tt.b8['z'])))
+		if in.branch(cand) {
+			in.unsupported("html.UnescapeString of a symbolic entity candidate")
+		}
+	}
+	return s
+}
+
 // ---------- encoding/json.Marshal (subset)
 
 const hexDigits = "0123456789abcdef"
@@ -1018,6 +1104,23 @@ func (in *Interp) jsonValue(t types.Type, v Value) ([]*Term, bool) {
 				return in.mkStr(strconv.FormatInt(x, 10)).b, true
 			}
 			return in.mkStr(strconv.FormatUint(uint64(x), 10)).b, true
+		case u.Info()&types.IsFloat != 0:
+			f, isF := v.(*OpaqueV)
+			if !isF || f.kind != "float" || f.data == nil {
+				return nil, false
+			}
+			var enc []byte
+			var err error
+			if u.Kind() == types.Float32 {
+				enc, err = json.Marshal(float32(f.data.(float64)))
+			} else {
+				enc, err = json.Marshal(f.data.(float64))
+			}
+			if err != nil {
+				in.jsonErr = err.Error() // NaN and infinities: UnsupportedValueError
+				return nil, false
+			}
+			return in.mkStr(string(enc)).b, true
 		}
 	case *types.Struct:
 		out := in.mkStr("{").b
@@ -1105,7 +1208,11 @@ func iJSONMarshal(in *Interp, fn *ssa.Function, a []Value) Value {
 	if iv.t != nil && in.lookupMethod(iv.t, nil, "MarshalJSON") == nil && in.lookupMethod(iv.t, nil, "MarshalText") == nil && jsonUnsupportedType(iv.t, 0) {
 		return TupleV{SliceV{}, in.newError(in.mkStr("json: unsupported type"))}
 	}
+	in.jsonErr = ""
 	bs, ok := in.jsonValue(iv.t, iv.v)
+	if !ok && in.jsonErr != "" {
+		return TupleV{SliceV{}, in.newError(in.mkStr(in.jsonErr))}
+	}
 	if !ok {
 		in.unsupported("json.Marshal of " + fmt.Sprint(iv.t))
 	}
